@@ -130,7 +130,8 @@ func (x *XmlNode) ContentTrim() string {
 // surrounding white space is not significant
 func (x *XmlNode) leafContent(m meta.Leafable) string {
 	t := m.Type()
-	if t.Format().Single() == val.FmtLeafRef {
+	// (a leafref may point to a leafref)
+	for hops := 0; t.Format().Single() == val.FmtLeafRef && hops < 64; hops++ {
 		t = t.Resolve()
 	}
 	switch t.Format().Single() {
